@@ -195,6 +195,54 @@ def check_one(args):
     sh('git checkout -q -- . && git clean -fdq', wt)
     return name, m['op'], f'{m["file"]}:{m["line"]}', ','.join(caught) if caught else 'missed(' + ','.join(ps) + ')'
 
+ALLPROPS = ['C%02d' % i for i in range(1, 21) if i != 16]
+
+def recheck_one(args):
+    """second pass for a missed mutant: every property that was not tried yet"""
+    i, (name, tried) = args
+    out = RECHECK_OUT
+    m = json.load(open(f'{out}/{name}.json'))
+    wt = f'/tmp/mutck{i}'
+    if not os.path.isdir(wt):
+        sh(f'git worktree add -q --detach {wt} HEAD', REPO)
+    sh('git checkout -q -- . && git clean -fdq', wt)
+    sh(f'git apply {out}/surv/{name}.diff', wt)
+    caught = []
+    for p in ALLPROPS:
+        if p in tried:
+            continue
+        rc, o = sh(f'VERIF_REPO={wt} VERIF_EVIDENCE_DIR={wt}/.evidence VERIF_SEED=1 ./vcheck {p} --tier quick 2>&1', '/verif', timeout=900)
+        if 'VIOLATION' in o:
+            caught.append(p)
+            break
+    sh('git checkout -q -- . && git clean -fdq', wt)
+    return name, m['op'], f'{m["file"]}:{m["line"]}', ','.join(caught) if caught else 'missed(all)'
+
+def recheck(out, workers=3):
+    global RECHECK_OUT
+    RECHECK_OUT = out
+    items = []
+    for l in open(f'{out}/results.tsv'):
+        f = l.rstrip('\n').split('\t')
+        if f[3].startswith('missed('):
+            items.append((f[0], f[3][7:-1].split(',')))
+    done = set()
+    rp = f'{out}/results2.tsv'
+    if os.path.exists(rp):
+        done = {l.split('\t')[0] for l in open(rp)}
+    items = [it for it in items if it[0] not in done]
+    import threading
+    lock = threading.Lock()
+    def fn(a):
+        r = recheck_one(a)
+        with lock:
+            open(rp, 'a').write('\t'.join(r) + '\n')
+        return r
+    pool_run(fn, items, workers)
+    for i in range(workers):
+        sh(f'git worktree remove --force /tmp/mutck{i}', REPO)
+    sh('git worktree prune', REPO)
+
 def check(out, workers=3):
     global ANCH
     ANCH = anchors()
@@ -221,5 +269,7 @@ if __name__ == '__main__':
         gen(sys.argv[2], int(sys.argv[3]) if len(sys.argv) > 3 else 400, int(sys.argv[4]) if len(sys.argv) > 4 else 1)
     elif cmd == 'survivors':
         survivors(sys.argv[2], int(sys.argv[3]) if len(sys.argv) > 3 else 6)
+    elif cmd == 'recheck':
+        recheck(sys.argv[2], int(sys.argv[3]) if len(sys.argv) > 3 else 3)
     elif cmd == 'check':
         check(sys.argv[2], int(sys.argv[3]) if len(sys.argv) > 3 else 3)
